@@ -225,9 +225,41 @@ def binary_run(exe, y, toks, hist, kind, fmt='json'):
     pr = subprocess.Popen([exe, '-listen', '%s://127.0.0.1:%d?count=1&workers=1&blocking=true' % (kind, port), '-transport', 'file',
                            '-transport.file', out, '-format', fmt] + (['-transport.file.sep='] if fmt == 'bin' else []) + (['-mapping', mp] if y else []) + ['-addr', '', '-loglevel', 'error'],
                           stdout=subprocess.PIPE, stderr=subprocess.PIPE)
-    # wait until the collector listens (the port shows up in /proc/net/udp), at most 20 s
+    # what the reference expects for these datagrams (exporter = 127.0.0.1 and our sending port): known before sending,
+    # so that the collector is stopped when it has written that much -- or after a long silence -- and not on a guess
+    h2 = ' '.join(' '.join(['=7f000001', '#%x' % sport, q[2], q[3]]) for q in quads)
+    line = ('pipec %s yamlj:%s %s %s' % (kind, y.encode().hex(), ' '.join(toks), h2)) if y else ('fmtchk %s none %s' % (kind, h2))
+    model = model_run('C14' if y else 'C13', [line])[0]
+    mt = model.split(' ')
+    want = sum(1 for x in mt if x == ('b' if fmt == 'bin' else 'j'))
+
+    def units():
+        try:
+            raw = open(out, 'rb').read()
+        except OSError:
+            return 0
+        if fmt != 'bin':
+            return raw.count(b'\n')
+        n, i = 0, 0
+        while i < len(raw):
+            v = sh_ = 0
+            while i < len(raw):
+                x = raw[i]
+                i += 1
+                v |= (x & 127) << sh_
+                sh_ += 7
+                if x < 128:
+                    break
+            else:
+                break
+            if i + v > len(raw):
+                break
+            i += v
+            n += 1
+        return n
+    # wait until the collector listens (the port shows up in /proc/net/udp), at most 30 s
     hexport = ':%04X ' % port
-    for _ in range(400):
+    for _ in range(600):
         try:
             if hexport in open('/proc/net/udp').read():
                 break
@@ -235,24 +267,26 @@ def binary_run(exe, y, toks, hist, kind, fmt='json'):
             pass
         time.sleep(0.05)
     time.sleep(0.1)
-    for q in quads:
+    for k, q in enumerate(quads):
         tx.sendto(bytes.fromhex(q[3][1:]), ('127.0.0.1', port))
         time.sleep(0.002)
-    # wait until the output stops growing (at most 20 s), then stop the collector
-    last, still = -1, 0
-    for _ in range(400):
-        try:
-            sz = os.path.getsize(out)
-        except OSError:
-            sz = 0
-        still = still + 1 if sz == last else 0
-        last = sz
-        if still >= 8:
+        if k % 16 == 15:
+            time.sleep(0.02)
+    # stop the collector when it has written what is expected, or after 15 s without any growth (at most 120 s)
+    last, t_last, t0 = -1, time.time(), time.time()
+    while time.time() - t0 < 120:
+        u = units()
+        if u >= want:
+            break
+        if u != last:
+            last, t_last = u, time.time()
+        elif time.time() - t_last > 15:
             break
         time.sleep(0.05)
+    time.sleep(0.1)
     pr.send_signal(signal.SIGTERM)
     try:
-        rc = pr.wait(timeout=15)
+        rc = pr.wait(timeout=30)
     except subprocess.TimeoutExpired:
         pr.kill()
         rc = 'timeout'
@@ -272,10 +306,7 @@ def binary_run(exe, y, toks, hist, kind, fmt='json'):
             os.remove(p)
         except OSError:
             pass
-    h2 = ' '.join(' '.join(['=7f000001', '#%x' % sport, q[2], q[3]]) for q in quads)
-    if not y:
-        return rc, lines, 'fmtchk %s none %s' % (kind, h2)
-    return rc, lines, 'pipec %s yamlj:%s %s %s' % (kind, y.encode().hex(), ' '.join(toks), h2)
+    return rc, lines, line, model
 
 
 def binary_part(chk, rng, hists):
@@ -288,8 +319,7 @@ def binary_part(chk, rng, hists):
     if p.returncode != 0:
         chk.record('binary', dict(concrete=False, what='cmd/goflow2 does not build: ' + p.stdout[-300:]), {})
         return
-    def judge_run(rc, lines, line):
-        m = model_run(GEN, [line])[0]
+    def judge_run(rc, lines, line, m):
         t = m.split(' ')
         exp = [None if t[i + 1] == 'oom' else bytes.fromhex(t[i + 1][1:]) for i, x in enumerate(t[:-1]) if x == 'j']
         bad = rc != 0 or len(lines) != len(exp) or any(e is not None and e != l for e, l in zip(exp, lines))
@@ -301,12 +331,12 @@ def binary_part(chk, rng, hists):
             y, toks = binary_cfg(rng)
             kind = rng.choice(['flow', 'flow', 'netflow', 'sflow'])
             hist = rng.choice(hists)
-            rc, lines, line = binary_run(exe, y, toks, hist, kind)
-            bad, exp = judge_run(rc, lines, line)
+            rc, lines, line, m = binary_run(exe, y, toks, hist, kind)
+            bad, exp = judge_run(rc, lines, line, m)
             if bad:
                 # datagrams can be lost between two processes on a loaded machine: believed only if it happens again
-                rc, lines, line = binary_run(exe, y, toks, hist, kind)
-                bad, exp = judge_run(rc, lines, line)
+                rc, lines, line, m = binary_run(exe, y, toks, hist, kind)
+                bad, exp = judge_run(rc, lines, line, m)
                 chk.notes.append('binary run repeated after a first disagreement: %s' % ('disagrees again' if bad else 'agrees'))
             runs.append(line)
             chk.evals += 1
